@@ -346,8 +346,20 @@ def special_layout(g, which):
             for f in order[keep:]:
                 ops.append({'op': 'rm_file', 'iso_path': f})
         return cfg, ops
+    if which == 'deep-reloc':
+        # Rock Ridge relocation: directories to depth 8..12, same-named twins, custom relocation name
+        from harness.props import c08
+        cfg = g.cfg(require=lambda c: c.rr is not None and c.level < 4)
+        h = c08.deep_history(g, cfg, r.randrange(1 << 30))
+        ops = [dict(o) for o in h.ops]
+        h.sess.close()
+        for o in ops:
+            # content ids outside the range the caller's generator hands out afterwards
+            if isinstance(o.get('cid'), int):
+                o['cid'] += 9000
+        return cfg, ops
     raise ValueError(which)
 
 
 SPECIALS = ['exact-fill', 'udf-big-dir', 'udf-exact-fill', 'exact-fill-root', 'exact-fill-multi', 'exact-fill-spill',
-            'shrink-subdir', 'grow-subdir']
+            'shrink-subdir', 'grow-subdir', 'deep-reloc']
